@@ -97,9 +97,18 @@ impl CGen {
                 (0..n).map(|_| self.data(depth - 1)).collect()
             }),
             6 => E::Map({
-                let n = self.r.below(3) as usize;
+                // keys in any order, repeated keys, keys of several kinds: a map in a datum is an association
+                // list that has to come out as written
+                let n = self.r.below(5) as usize;
                 (0..n)
-                    .map(|i| (E::Number(i as i128), self.data(depth - 1)))
+                    .map(|_| {
+                        let key = match self.r.below(6) {
+                            0 => E::Bytes(vec![self.r.below(3) as u8]),
+                            1 => E::String((*self.r.pick(&["a", "b"])).to_string()),
+                            _ => E::Number(self.r.below(4) as i128),
+                        };
+                        (key, self.data(depth - 1))
+                    })
                     .collect()
             }),
             7 => E::Address(ADDR_A.to_vec()),
@@ -182,7 +191,8 @@ impl CGen {
             } else {
                 vec![(self.r.below(6) + 1) as u8; 32]
             },
-            index: self.r.below(3) as u32,
+            // output indices whose numeric order differs from their order as decimal strings
+            index: *self.r.pick(&[0u32, 1, 2, 2, 9, 10, 11, 25, 100]),
         }
     }
 
